@@ -2,7 +2,7 @@ CONSTANTS Operands <- OperandsA
  Ops <- OpsAll
  Pres <- PresAll
  MaxOps = 3
- LongOperands <- OperandsD
+ LongOperands <- OperandsB
  LongOps <- OpsAll
  LongPres <- PresNone
  Emit = TRUE
